@@ -55,7 +55,7 @@ func genC16(rng *rand.Rand, tier string) *sim.Plan {
 	nn := 2 + rng.IntN(2)
 	p.Broker.Nodes = nn
 	p.Sched.MaxSteps = 1500000
-	scen := pick(rng, []string{"cuts", "cuts", "failjoin", "failjoin", "kill", "calm", "calm", "ackloss"})
+	scen := pick(rng, []string{"cuts", "cuts", "failjoin", "failjoin", "kill", "calm", "calm", "ackloss", "warmcuts"})
 	p.Params = map[string]string{
 		"scenario":          scen,
 		"fed_cutprob":       fmt.Sprint(pick(rng, []float64{0.01, 0.03, 0.1, 0.25})),
@@ -120,8 +120,26 @@ func genC16(rng *rand.Rand, tier string) *sim.Plan {
 			}
 		}
 	}
+	if scen == "warmcuts" {
+		// the receivers' duplicate caches (100 entries) are filled with events that were applied and acknowledged in
+		// peace; only then do the streams start to break — among other places between "event applied" and
+		// "acknowledgement handed to the transport", which makes the sender repeat exactly that event
+		p.Params["fed_cutprob"] = fmt.Sprint(pick(rng, []float64{0.1, 0.25}))
+		p.Params["fed_maxcuts"] = fmt.Sprint(6 + rng.IntN(10))
+		var warm sim.Phase
+		for n := 0; n < nn; n++ {
+			for i := 0; i < 100+rng.IntN(25); i++ {
+				msg++
+				warm.Ops = append(warm.Ops, sim.Op{K: "publish", C: l.pub[n], Topic: fmt.Sprintf("m/%d", n), QoS: 1, Payload: fmt.Sprintf("p%d", msg), NoWait: true})
+			}
+		}
+		p.Phases = append(p.Phases, warm, sim.Phase{Ops: []sim.Op{{K: "sleep", C: nextAPI(), D: sim.Sec(2)}}})
+	}
 	p.Phases = append(p.Phases, sim.Phase{Ops: []sim.Op{{K: "api_custom", C: nextAPI(), Custom: "fed_faults", Mode: "on"}}})
 	rounds := 1 + rng.IntN(3)
+	if scen == "warmcuts" {
+		rounds = 3
+	}
 	if tier == "thorough" {
 		rounds = 2 + rng.IntN(4)
 	}
@@ -129,7 +147,11 @@ func genC16(rng *rand.Rand, tier string) *sim.Plan {
 		var ph sim.Phase
 		for n := 0; n < nn; n++ {
 			if chance(rng, 0.8) {
-				pubs(&ph, n, 1+rng.IntN(6))
+				k := 1 + rng.IntN(6)
+				if scen == "warmcuts" {
+					k = 8 + rng.IntN(10)
+				}
+				pubs(&ph, n, k)
 			}
 			churn(&ph, n)
 		}
@@ -263,6 +285,21 @@ func oracleC16(p *sim.Plan, out *sim.Outcome) []sim.Violation {
 	}
 	for k, v := range cl.Faults {
 		out.Faults[k] += v
+	}
+	// reach probe: message events that were delivered to a peer and sent to it again (the receiver's duplicate
+	// cache is what keeps them from being applied twice)
+	{
+		deliv := map[string]int{}
+		for _, e := range fedEvents(cl) {
+			if m := e.Ev.GetMessage(); m != nil && e.F.DelivStep > 0 && !e.F.Lost {
+				deliv[e.F.From+">"+e.F.To+"|"+string(m.Payload)]++
+			}
+		}
+		for _, n := range deliv {
+			if n > 1 {
+				out.Probes["fed_message_event_delivered_again"]++
+			}
+		}
 	}
 	nn := p.Broker.Nodes
 	scen := p.Params["scenario"]
